@@ -881,6 +881,65 @@ example :
     r.authn = false ∧ r.err = .panicked ∧ r.sent = [.challenge [1]] := by
   decide
 
+/-! ### the conditions of `<failure/>` -/
+
+/-- **Every `<failure/>` ends the exchange unauthenticated, with the peer's failure as the
+error** (probed: both roles × the eleven defined conditions, an unknown child, no child — 26
+complete sessions): never `Authn`, the error is the decoded SASL failure and names the
+condition (`none` for what is not a defined condition). -/
+theorem C03_gen_failure_conds :
+    (Generated.C03.saslFailureConds.map fun t =>
+      t.length == 26 && t.all fun r =>
+        r.2.2.1 == false && r.2.2.2.1 == true && r.2.2.2.2 == failureText r.2.1) = some true := by
+  decide
+
+/-- the table covers every defined condition on both roles -/
+theorem C03_gen_failure_conds_complete :
+    (Generated.C03.saslFailureConds.map fun t =>
+      definedConds.all fun c => t.any (fun r => r.1 == "cli" && r.2.1 == c) && t.any (fun r => r.1 == "srv" && r.2.1 == c))
+      = some true := by
+  decide
+
+/-- **What the receiving side writes when it refuses is a defined condition** — whatever the
+configuration, the state of the exchange and the element: every `<failure/>` in the reaction of
+`negotiateServer` carries one of four conditions, all defined, so the initiating side of this
+library (and any conforming one) reads it as the failure it is (`C03_gen_failure_conds`,
+`C03_client_failure_never_read`). -/
+theorem C03_server_failures_defined (cfg : List (String × Mech)) (cur : Option SCur) (ev : SEv)
+    (r : SRes) (h : sevent cfg cur ev = .stop r) (c : String) (hc : SSent.failure c ∈ r.sent) :
+    c ∈ serverFailureConds ∧ definedConds.contains c = true := by
+  have key : c ∈ serverFailureConds := by
+    have hs : ∀ (name : String) (mech : Mech) (hist : List Bytes) (p : Payload) (r : SRes),
+        sstep name mech hist p = .stop r → SSent.failure c ∈ r.sent → c ∈ serverFailureConds := by
+      intro name mech hist p r h hc
+      unfold sstep at h
+      split at h
+      · cases h; simp [sfail] at hc
+      · split at h <;> first
+          | (cases h; simp [sfail] at hc; try (subst hc; decide))
+          | (cases h)
+    cases ev with
+    | failure => simp [sevent, sfail] at h; subst h; simp at hc
+    | space => simp [sevent, sfail] at h; subst h; simp at hc
+    | abort => simp [sevent, sfail] at h; subst h; simp at hc; subst hc; decide
+    | other => simp [sevent, sfail] at h; subst h; simp at hc; subst hc; decide
+    | otherNs => simp [sevent, sfail] at h; subst h; simp at hc; subst hc; decide
+    | auth name p =>
+      simp only [sevent] at h
+      split at h
+      · cases h; simp [sfail] at hc; subst hc; decide
+      · split at h
+        · cases h; simp [sfail] at hc; subst hc; decide
+        · exact hs _ _ _ _ _ h hc
+    | response p =>
+      simp only [sevent] at h
+      split at h
+      · cases h; simp [sfail] at hc; subst hc; decide
+      · exact hs _ _ _ _ _ h hc
+  refine ⟨key, ?_⟩
+  have : ∀ x ∈ serverFailureConds, definedConds.contains x = true := by decide
+  exact this c key
+
 /-! ### many sessions on one feature value -/
 
 /-- **No shared mutable state behind the feature value** (regenerated from the source on every
@@ -982,6 +1041,63 @@ example :
     = [some (false, [⟨[117], [113], [], false⟩]), some (true, [⟨[117], [112], [], true⟩])] := by
   decide
 
+/-! ### many initiating sessions on one `xmpp.SASL` value -/
+
+/-- **Initiating sessions are independent** — the same statement for the client library that
+negotiates all its connections with one `xmpp.SASL(…)` value: over EVERY store of what the
+sessions could share, with the written variables `W` the regenerated fact reports (the walk
+covers `negotiateClient` and everything it calls), the store is never changed and session `i`
+is the session run alone: which mechanism it selects, what it sends and whether it ends
+authenticated depend on what ITS peer advertised and sent, and on nothing else. -/
+theorem C03_client_sessions_independent {σ : Type} (sh : SharedC σ) (W : List String)
+    (hW : Generated.C03.saslSharedWrites = some W)
+    (cm : List (String × Mech)) (sched : List Nat) (ss : List CSess) (i : Nat) :
+    (runSchedSharedC sh W cm sh.init ss sched).1 = sh.init ∧
+    (runSchedSharedC sh W cm sh.init ss sched).2[i]? = ss[i]?.map (CSess.iter cm (sched.count i)) := by
+  have hnil : W = [] := by
+    have := C03_gen_no_shared_writes
+    rw [hW] at this
+    exact Option.some.inj this
+  subst hnil
+  rw [runSchedSharedC_nil]
+  exact ⟨rfl, runSchedC_product cm sched ss i⟩
+
+/-- … so a session that got two quanta more than its peer's script is long has finished with
+exactly the result of `negotiateClient` on its own advertised list and script
+(`C03_client_sound` applies to it) -/
+theorem C03_client_sessions_outcome {σ : Type} (sh : SharedC σ) (W : List String)
+    (hW : Generated.C03.saslSharedWrites = some W)
+    (cm : List (String × Mech)) (scripts : List (List String × List CEv))
+    (sched : List Nat) (i : Nat) (adv : List String) (peer : List CEv)
+    (hi : scripts[i]? = some (adv, peer)) (hfair : peer.length + 2 ≤ sched.count i) :
+    (runSchedSharedC sh W cm sh.init (scripts.map fun ap => CSess.init ap.1 ap.2) sched).2[i]?
+      = some (.finished (clientNeg cm adv peer)) := by
+  rw [(C03_client_sessions_independent sh W hW cm sched _ i).2, List.getElem?_map, hi]
+  obtain ⟨m, hm⟩ := Nat.exists_eq_add_of_le hfair
+  simp only [Option.map_some]
+  rw [hm, CSess.iter_add, CSess.iter_clientNeg, CSess.iter_finished]
+
+/-- **… and that needs the fact**: with one written variable (`leakySharedC`: the running
+exchange of the last quantum is remembered outside `negotiateClient`) a session to which the
+peer advertised NOTHING takes over another session's exchange and ends authenticated on a bare
+`<success/>`, where alone it fails with "no matching mechanisms". -/
+theorem C03_client_sessions_shared_write_fails :
+    ¬ (∀ (W : List String) (cm : List (String × Mech)) (sched : List Nat) (ss : List CSess) (i : Nat),
+        ((runSchedSharedC leakySharedC W cm leakySharedC.init ss sched).2[i]?).map csessSummary
+          = (ss[i]?.map (CSess.iter cm (sched.count i))).map csessSummary) := by
+  intro h
+  have := h ["sel"] [("M", fun hist => if hist.length = 0 then { kind := .more } else { kind := .done })]
+    [0, 1] [CSess.init ["M"] [.challenge .empty], CSess.init [] [.success .empty]] 1
+  revert this
+  decide
+
+-- non-vacuity: two sessions with different advertised lists on one value, interleaved
+example :
+    ((runSchedSharedC leakySharedC [] [("A", fun _ => { kind := .done, resp := [1] }), ("B", fun _ => { kind := .done, resp := [2] })] none
+      [CSess.init ["B"] [.success .empty], CSess.init ["B", "A"] [.failure .defined]] [1, 0, 0, 1, 1, 0]).2).map csessSummary
+    = [some (true, .none, [.auth "B" [2]]), some (false, .saslFailure, [.auth "A" [1]])] := by
+  decide
+
 /-! ### the gates of the feature and the `Authn` bit of the session -/
 
 /-- **SASL is gated by the session state, whatever the mechanisms** (probed on every run: the
@@ -1079,6 +1195,16 @@ tls-unique data / TLS 1.3 × three advertised lists): every row is what the mode
 theorem C03_gen_neg_opts :
     (Generated.C03.saslNegOpts.map fun t =>
       t.length == 16 && t.all fun r => optsRow r.1 r.2.1 r.2.2.1 == some r.2.2.2) = some true := by
+  decide
+
+/-- **… also over a real TLS layer, with and without the tee** (probed: the session runs on a
+`*tls.Conn` of an in-process handshake, both roles × TLS 1.2 / 1.3 × `StreamConfig.TeeIn/TeeOut`
+set or not): the recording mechanism ran, saw a TLS state with the version of the connection
+and the tls-unique data of that very connection. -/
+theorem C03_gen_neg_opts_tls :
+    (Generated.C03.saslNegOptsTLS.map fun t =>
+      t.length == 8 && t.all fun r =>
+        r.2.2.2 == (true, (tlsOpt (some ⟨r.2.1, []⟩)).isSome, r.2.1, true)) = some true := by
   decide
 
 /-- **Channel binding gets the state of this connection or nothing**: the mechanism sees a TLS
